@@ -566,8 +566,9 @@ def add_virtual(rng, case, n_virtual=None, n_zero_edges=None, order=0):
     virt = []
     same_name = rng.random() < 0.4          # several fragment-less nodes may carry the same name
     faulty = rng.randrange(nv) if order else None   # fault variant: exactly one of them has a real edge
+    str_keys = case.get('ctor') == 'from_graph' and rng.random() < 0.5     # a hand-made graph may key its virtual sites by name
     for i in range(nv):
-        v = nxt
+        v = ('VS%d' % i) if str_keys else nxt
         nxt += 1
         base.add_node(v, fragname='V0' if same_name else 'V%d' % i)
         targets = rng.sample(real + virt, rng.randint(1, min(3, len(real) + len(virt))))
